@@ -170,7 +170,10 @@ def run(chk):
         emits = rng.sample(acc, min(len(acc), 11000)) + rng.sample(rej, min(len(rej), 5000))
     if not quick and len(emits) > 60000:
         rng = random.Random(chk.seed)
-        emits = [e for e in emits if e['ok']] + rng.sample([e for e in emits if not e['ok']], 30000)
+        # thorough tier: up to 250,000 accepted pairs (all of them while the instance was smaller; the pool of patterns, invocations and
+        # steps has grown to two million pairs of which several hundred thousand are accepted) and 30,000 rejected ones
+        acc = [e for e in emits if e['ok']]
+        emits = (acc if len(acc) <= 250000 else rng.sample(acc, 250000)) + rng.sample([e for e in emits if not e['ok']], 30000)
     import time as _t
     _t0 = _t.time()
     outs = runner.pmap(evaluate, emits)
